@@ -46,6 +46,11 @@
 (*              zero an edge target still "improved" it for a crossing     *)
 (*              edge (true distance 0) and reported the stale limit as the *)
 (*              distance of that edge (fixed by 8676a07)                   *)
+(*   "nocons"   (seeded change C08-seed2, not in the tree) the conservative *)
+(*              cell distance is switched on by `maxError < distanceLimit` *)
+(*              on the raw chord angles; for furthest-edge queries         *)
+(*              infinity is the NEGATIVE chord angle, so an unlimited      *)
+(*              search never subtracts maxError from its cell bounds       *)
 (* With AsImplemented = {} TLC proves the invariants below on all scenes   *)
 (* within the bounds; with a tag TLC prints a counterexample behaviour.    *)
 (***************************************************************************)
@@ -66,14 +71,14 @@ CONSTANTS
     MinEnq,         \* minEdgesToEnqueue (10 in the code)
     MaxDisc,        \* at most this many cells in the covering of the search disc
     MaxSpan,        \* an edge lies in at most this many index cells
-    AsImplemented   \* subset of {"break", "dup", "capbound", "nosat"}
+    AsImplemented   \* subset of {"break", "dup", "capbound", "nosat", "nocons"}
 
 INF == 1000
 MinOf(a, b) == IF a < b THEN a ELSE b
 None == <<>>
 
 ASSUME Faces \subseteq 1..6 /\ Fanout \in 1..4 /\ Depth \in 0..3 /\ DMax < 100
-ASSUME AsImplemented \subseteq {"break", "dup", "capbound", "nosat"}
+ASSUME AsImplemented \subseteq {"break", "dup", "capbound", "nosat", "nocons"}
 
 (***************************************************************************)
 (* The cell tree                                                           *)
@@ -257,7 +262,9 @@ Start ==
                      res == [i \in 1..Len(vs) |-> [d |-> 0, s |-> vs[i], e |-> -1]]
                      lim1 == IF opts.mr = 1 /\ V # {} THEN 0 - opts.err ELSE opts.limit
                      useME == opts.err # 0 /\ opts.tUses
-                     cons == useME /\ (lim1 = INF \/ 0 < lim1 - opts.err)
+                     cons == IF "nocons" \in AsImplemented
+                             THEN useME /\ lim1 # INF /\ 0 < lim1 - opts.err
+                             ELSE useME /\ (lim1 = INF \/ 0 < lim1 - opts.err)
                  IN  /\ results' = res /\ limit' = lim1
                      /\ IF lim1 = 0
                         THEN /\ pc' = "post" /\ work' = <<>> /\ flags' = NoFlags
